@@ -609,6 +609,20 @@ func valueS(k string, v mq.VerifValue) string {
 	return ns(v.N)
 }
 
+func renderS(p mq.Packet) string {
+	str := func() (s string) {
+		defer func() {
+			if e := recover(); e != nil {
+				s = "PANIC"
+			}
+		}()
+		return hexs([]byte(p.String()))
+	}()
+	var b strings.Builder
+	mq.Dump(&b, p)
+	return "str=" + str + " dump=" + hexs([]byte(b.String()))
+}
+
 func runCase(line string) (res string) {
 	defer func() {
 		if r := recover(); r != nil {
@@ -692,6 +706,37 @@ func runCase(line string) (res string) {
 		}
 		b.WriteString(encS(p) + " " + wfS(p))
 		return b.String()
+	case "S":
+		k, _ := strconv.Atoi(f[1])
+		p := newPacket(k)
+		for _, c := range f[2:] {
+			applyCall(p, c)
+		}
+		return renderS(p)
+	case "SR":
+		p, err := mq.ReadPacket(oneChunk(unhex(f[1])))
+		if err != nil {
+			return "ERR"
+		}
+		return "P" + strconv.Itoa(kindOf(p)) + " " + renderS(p)
+	case "SZ":
+		k, _ := strconv.Atoi(f[1])
+		return renderS(zeroPacket(k))
+	case "FB":
+		n, _ := strconv.Atoi(f[1])
+		return hexs([]byte(mq.VerifFirstByteString(byte(n))))
+	case "CF":
+		n, _ := strconv.Atoi(f[1])
+		return hexs([]byte(mq.VerifConnectFlagsString(byte(n))))
+	case "CAF":
+		n, _ := strconv.Atoi(f[1])
+		return hexs([]byte(mq.VerifConnAckFlagsString(byte(n))))
+	case "FO":
+		n, _ := strconv.Atoi(f[1])
+		return hexs([]byte(mq.NewTopicFilter("", mq.Opt(n)).String()))
+	case "RC":
+		n, _ := strconv.Atoi(f[1])
+		return hexs([]byte(mq.ReasonCode(n).String()))
 	case "W":
 		k, _ := strconv.Atoi(f[1])
 		w := parseWScript(f[2])
